@@ -48,6 +48,8 @@ struct Scenario {
   std::string silence;
   double tickSpacing = 1.0;
   int rulesetDelay = 0;    // ruleset-level post_action_delay
+  long long memTotalKb = 64LL << 20, swapTotalKb = 8LL << 20, swapUsedKb = 0;  // /proc/meminfo, /proc/swaps
+  bool autoPgscan = true;  // pgscan of every cgroup grows by its base value each tick
   // optional scripting (not part of describe())
   std::function<void(Oomd::Oomd&)> afterMake;                       // e.g. install a drop-in adaptor
   std::function<void(int tick)> onTick;                            // scripted environment step before each tick
@@ -168,8 +170,8 @@ inline Outcome run(const Scenario& s, bool verbose = false) {
   vb::clockNs = vb::kEpochNs;
   sim::resetStats();
   world::reset();
-  world::setMeminfo(64LL << 20, 32LL << 20, 8LL << 20, 8LL << 20);  // kB: 64 GiB RAM, 8 GiB swap
-  world::setSwaps(8LL << 20, 0);
+  world::setMeminfo(s.memTotalKb, s.memTotalKb / 2, s.swapTotalKb, s.swapTotalKb - s.swapUsedKb);
+  world::setSwaps(s.swapTotalKb, s.swapUsedKb);
   Builder b;
   b.home = &out.pidHome;
   for (auto& c : s.cgs) b.create(c);
@@ -179,6 +181,7 @@ inline Outcome run(const Scenario& s, bool verbose = false) {
   std::string err;
   sim::IoCfg io;
   io.devs["8:0"] = Oomd::DeviceType::SSD;
+  io.devs["8:16"] = Oomd::DeviceType::HDD;
   auto o = sim::make(configJson(s), &err, 5, "", io);
   if (!o) {
     out.rejected = err.empty() ? "rejected" : err;
@@ -213,7 +216,7 @@ inline Outcome run(const Scenario& s, bool verbose = false) {
         }
         // kill_by_pg_scan / io_cost need moving counters
         for (auto& rel : world::allCgroups()) {
-          if (rel.empty()) continue;
+          if (rel.empty() || !s.autoPgscan) continue;
           auto it = byRel.find(rel);
           long long base = it == byRel.end() ? 10 : it->second.pgscan;
           world::setMemStatKey(rel, "pgscan", base * k);
